@@ -290,3 +290,42 @@ def keyword_vocabulary(ctx, ss, rule: str, trees=(), terms=()):
         else:
             ctx.violation(rule, f"{DECGRAMMAR}:{t} :: keyword-family", loc,
                           f"{t} accepts {sorted(got) if got is not None else 'an infinite language'}, EvtGen files write {sorted(want)}")
+
+
+def dict_entries(ff, flow, target: str):
+    """Semantic content of a dictionary built in `ff` under the name / attribute `target` ("d", "self.metadata"):
+    (entries, stmts, conditional) where entries is the ordered list of ("key-text", value) for explicit keys and
+    ("**", expr) for spread / update sources — the same for
+        d = {"a": x}; d.update(m)      d = {"a": x, **m}      d = dict(a=x); d.update(**m)
+    `conditional` is True when one of the contributing statements is not executed on every path."""
+    from ..core import guards
+    entries, stmts, conditional = [], [], False
+    started = False
+    for st in pf.iter_stmts(ff.node.body):
+        tg = None
+        if isinstance(st, ast.Assign) and len(st.targets) == 1:
+            tg, val = st.targets[0], st.value
+        elif isinstance(st, ast.AnnAssign) and st.value is not None:
+            tg, val = st.target, st.value
+        if tg is not None and txt(tg) == target and isinstance(val, (ast.Dict, ast.Call)):
+            if isinstance(val, ast.Dict):
+                entries = [(("**", v) if k is None else (txt(k), v)) for k, v in zip(val.keys, val.values)]
+            elif txt(val.func) == "dict" and not val.args:
+                entries = [(("**", kw.value) if kw.arg is None else (repr(kw.arg), kw.value)) for kw in val.keywords]
+            else:
+                continue
+            stmts = [st]
+            started = True
+            conditional = bool([c for c in guards.path_conditions(ff.node, st) if c[0] in ("if", "exc", "loop")])
+            continue
+        if started and isinstance(st, ast.Expr) and isinstance(st.value, ast.Call) and isinstance(st.value.func, ast.Attribute) \
+                and st.value.func.attr == "update" and txt(st.value.func.value) == target:
+            c = st.value
+            for a in c.args:
+                entries.append(("**", a))
+            for kw in c.keywords:
+                entries.append(("**", kw.value) if kw.arg is None else (repr(kw.arg), kw.value))
+            stmts.append(st)
+            if [x for x in guards.path_conditions(ff.node, st) if x[0] in ("if", "exc", "loop")]:
+                conditional = True
+    return entries, stmts, conditional
